@@ -133,7 +133,7 @@ def guards(node, stop=None):
                             out.append((p.test, True))
                         elif fname == "orelse":
                             out.append((p.test, False))
-                    elif isinstance(p, ast.While) and fname == "body":
+                    elif isinstance(p, ast.While) and fname == "body" and p is not stop:
                         out.append((p.test, True))
                     out.extend(_sibling_guards(blk, n))
                     break
